@@ -401,10 +401,15 @@ theorem C12_getter_raises_in_handler (P : Env Val) (s : St Val) (e : Exc)
 expression, so with `fires := firesSpec` every hypothesis of the theorems
 above holds of exactly the environments that are compared with the real code. -/
 theorem C12_canonical_getters_depend_only (E : Expr) (root : Id) (undef : Bool) :
-    DependsOnly (viewGetter E root) E root ∧ DependsOnly (sumGetter E root undef) E root :=
+    DependsOnly (viewGetter E root) E root ∧ DependsOnly (sumGetter E root undef) E root
+      ∧ DependsOnly (falsyGetter E root) E root :=
   ⟨dependsOnly_foldExpr _ _ E root (fun l => "&".intercalate l),
    dependsOnly_foldExpr sumLeaf _ E root
-     (fun l => if undef && l.foldl (· + ·) 0 % 5 == 3 then "U" else toString (l.foldl (· + ·) 0))⟩
+     (fun l => if undef && l.foldl (· + ·) 0 % 5 == 3 then "U" else toString (l.foldl (· + ·) 0)),
+   dependsOnly_foldExpr sumLeaf _ E root
+     (fun l => let t := l.foldl (· + ·) 0
+       if t % 5 == 0 then "N" else if t % 5 == 1 then "0" else if t % 5 == 2 then "''"
+       else if t % 5 == 3 then "[]" else toString t)⟩
 
 /-- Closed form for those environments: no assumption left but the interface
 one (`fires` is the specification). -/
